@@ -82,6 +82,7 @@ func VxC18_MarksUnmarkTest() {
 
 // VxC18_MarksNext: Next(i) is the least member greater than i, or -1.
 //
+//vx:timeout 90000
 //vx:solver z3-new
 //vx:bound words L in {0,1,2,3,32,64}; any int64 i; probe j any int64
 func VxC18_MarksNext() {
